@@ -40,10 +40,11 @@ def collision_programs():
     compiled constants and the program is extended with the integer literal whose payload equals it (and neighbours)"""
     import re
     bases = ["functie f(a) { a };", "functie f() { 1 }; functie g(a, b) { stel c = a; c + b };", "stel h = functie(x) { x * 2 };",
-             "stel pad = 123456; functie f(a) { a + pad };"]
+             "stel pad = 123456; functie f(a) { a + pad };", "stel f = functie() { 7 };", "1; stel f = functie() { 7 };"]
+    calls = ["f(3)", "f() + g(1, 2)", "h(4)", "f(5)", "f()", "f()"]
     out = []
     ans = core.impl(["compile " + core.hx(b + " 0") for b in bases])
-    for b, a in zip(bases, ans):
+    for (b, cl), a in zip(zip(bases, calls), ans):
         for ip, n in re.findall(r"fn:(\d+):(\d+)", a):
             k = int(ip) * 65536 + int(n)
             names = re.findall(r"functie (\w+)\(", b) + re.findall(r"stel (\w+) = functie", b)
@@ -52,6 +53,9 @@ def collision_programs():
                 out.append("%s [type(%d), %d + 1, type(%s), %d == %d]" % (b, lit, lit, f, lit, lit))
                 out.append("%d; %s type(%s)" % (lit, b, f))
                 out.append("%s stel q = %d; [q, %s == %s]" % (b, lit, f, f))
+                out.append("%s %d + %s" % (b, lit, cl))
+                out.append("stel x = %d; %s %s + x" % (lit, b, cl))
+                out.append("functie hoofd() { %s [%d, %s, %d] }; hoofd()" % (b, lit, cl, lit))
     return out
 
 
